@@ -45,6 +45,27 @@ func (p Poly) scale(c int64) Poly {
 	return out
 }
 
+// pSum is the sum of inner over the elements of a list, in one canonical form: the constant part of the summand counts
+// once per element (k*len(coll)), whether the code adds it inside the loop or once in front of it.
+func pSum(coll string, inner Poly) Poly {
+	if len(inner) == 0 {
+		return Poly{}
+	}
+	out := Poly{}
+	rest := Poly{}
+	for k, v := range inner {
+		if k == "" {
+			out["len("+coll+")"] = v
+		} else {
+			rest[k] = v
+		}
+	}
+	if len(rest) > 0 {
+		out["sum("+coll+"){"+rest.String()+"}"] = 1
+	}
+	return out
+}
+
 func (p Poly) isConst() (int64, bool) {
 	for k := range p {
 		if k != "" {
@@ -153,11 +174,7 @@ func sizeOf(ws []W, sizeMode bool) Poly {
 			p = p.add(pAtom(lenOfRaw(t.T, sizeMode)))
 		case WLoop:
 			b := sizeOf(t.Body, sizeMode)
-			if c, ok := b.isConst(); ok {
-				p = p.add(Poly{"len(" + t.Coll + ")": c})
-			} else {
-				p = p.add(pAtom("sum(" + t.Coll + "){" + b.String() + "}"))
-			}
+			p = p.add(pSum(t.Coll, b))
 		case WMap:
 			b := sizeOf(t.Body, sizeMode)
 			p = p.add(pAtom("sum(" + t.Coll + "){" + b.String() + "}"))
